@@ -56,6 +56,7 @@ type Scenario struct {
 	PoolSeam  bool            `json:"pool_seam,omitempty"`
 	PoolBias  int             `json:"pool_bias,omitempty"`
 	Budget    int             `json:"budget,omitempty"`
+	Warm      bool            `json:"warm,omitempty"` // build the codecs single-threaded before the run
 	SchedSeed uint64          `json:"sched_seed"`
 	Note      string          `json:"note,omitempty"`
 }
@@ -329,7 +330,7 @@ func (p *Prepared) prepareOp(op *Op) (*prepOp, bool) {
 				return nil, false
 			}
 		}
-	case "scribble", "recheck", "mutate", "nop", "reslice":
+	case "scribble", "recheck", "mutate", "nop", "reslice", "marshalTarget":
 	default:
 		panic(HarnessError{"unknown op kind " + op.Kind})
 	}
@@ -496,6 +497,8 @@ func (t *taskState) sharedOp(i int, po *prepOp) {
 		t.scribbleOp(i, po)
 	case "recheck":
 		t.recheck(i, po, "after later operations")
+	case "marshalTarget":
+		t.marshalTargetOp(i, po)
 	case "reslice":
 		if tgt, ok := t.targets[po.op.Target]; ok {
 			r := engine.PRNG{S: uint64(po.op.Arg) + 7}
@@ -512,8 +515,10 @@ func (t *taskState) sharedOp(i int, po *prepOp) {
 }
 
 func (t *taskState) checkBytes(i int, po *prepOp, b []byte, err error) {
-	if t.x.prop != "C07" {
-		// what Marshal returns after a history is not what C10 / C11 / C19 state
+	if t.x.prop != "C07" && t.x.prop != "C10" {
+		// what Marshal returns is not what C11 / C19 state. (C10: "re-used ...
+		// instances never leak stale state ... nothing decoded or encoded earlier
+		// can influence a later result" is read as covering later encodes too.)
 		if errText(err) != po.expErr || !world.SameEncoding(po.ti.T, b, po.expBytes) {
 			t.probe("other_property:encoding_differs_from_solo")
 		}
@@ -623,7 +628,7 @@ func Execute(prep *Prepared, hooks PropHooks, forced []engine.Dec, useForced boo
 	for _, cfg := range sc.Insts {
 		x.insts = append(x.insts, world.NewInstance(cfg))
 	}
-	if propRules[sc.Prop].warm {
+	if propRules[sc.Prop].warm || sc.Warm {
 		// first use happens here, single-threaded, outside the simulation
 		for _, ops := range prep.ops {
 			for _, po := range ops {
